@@ -352,3 +352,58 @@ func (d *zzNoDB) Get(key []byte) ([]byte, bool) {
 }
 func (d *zzNoDB) Set(key, val []byte) { d.t.Fail("unexpected database write") }
 func (d *zzNoDB) Del(key []byte)      { d.t.Fail("unexpected database delete") }
+
+// C10 storage format: a stored subtree decodes to what was encoded, for every node count the format
+// can hold — 1, 2, 3, 255 and 256 (the count byte holds count-1: 256 is its largest value) — with one
+// stub node whose hash is symbolic at a chosen position and empty nodes elsewhere. A trie "reopened
+// from its stored nodes continues identically" only if this round trip is the identity.
+//
+//zz:opt loop=2000 require=end
+func zzH_C10_subtree_store_roundtrip(t *zzT) {
+	var structure []uint8
+	switch t.Choice("nodes", 5) {
+	case 0:
+		structure = []uint8{0}
+	case 1:
+		structure = []uint8{1, 1}
+	case 2:
+		structure = []uint8{1, 2, 2}
+	case 3: // 255 nodes: one at height 7, 254 at height 8
+		structure = append(structure, 7)
+		for i := 0; i < 254; i++ {
+			structure = append(structure, 8)
+		}
+	default: // 256 nodes, all at height 8 (a full subtree)
+		for i := 0; i < 256; i++ {
+			structure = append(structure, 8)
+		}
+	}
+	n := len(structure)
+	at := 0
+	if n > 1 {
+		at = []int{0, n / 2, n - 1}[t.Choice("stub.at", 3)]
+	}
+	hash := t.Bytes("stub.hash", 32)
+	nodes := make([]*node, n)
+	for i := range nodes {
+		nodes[i] = newEmptyNode()
+	}
+	nodes[at] = newStubNode(hash)
+	st, err := newSubtreeFromData(structure, nodes, treeHasher)
+	if err != nil {
+		t.Fail("harness: cannot build the subtree")
+	}
+	enc := st.encode()
+	dec, err := newSubTree(enc, 2, treeHasher)
+	t.Assert(err == nil && dec != nil, "an encoded subtree decodes")
+	if err != nil || dec == nil {
+		return
+	}
+	same := len(dec.structure) == n && len(dec.nodes) == n
+	for i := 0; same && i < n; i++ {
+		same = dec.structure[i] == structure[i] && dec.nodes[i].kind == nodes[i].kind && bytes.Equal(dec.nodes[i].hash, nodes[i].hash)
+	}
+	t.Assert(same, "the decoded subtree has the encoded structure and nodes")
+	t.Assert(bytes.Equal(dec.root, st.root), "the decoded subtree has the same root")
+	t.Reach("end")
+}
